@@ -165,7 +165,7 @@ Fixpoint redeem_coins (v : variant) (s : st) (amts : coins) : outcome coins :=
   | [] => Ok []
   | (d, x) :: r =>
       if v_redeem_rule v =? 0 then do t <- redeem_coins v s r; Ok ((d, pool_coin x (slashed s)) :: t)
-      else if stake s d <=? 0 then Err "insufficient total staking tokens"
+      else if (x <? 0) || (stake s d <=? 0) then Err "insufficient total staking tokens"
       else do t <- redeem_coins v s r; Ok ((d, ceil_div (x * shares s d) (stake s d)) :: t)
   end.
 
